@@ -289,6 +289,27 @@ def py_tag_parse() -> None:
         raise TranslateError(f"_is_py_version_compatible: tests changed: {tests}")
 
 
+def glibc_cmp_strict() -> bool:
+    """manylinux_tag_is_compatible_with_this_system: `if (sys_major, sys_minor) < (tag_major, tag_minor): return False`
+    -- a wheel built for exactly the host's glibc is accepted iff the comparison is strict"""
+    fn = T.func(T.parse(REPO_PY), "manylinux_tag_is_compatible_with_this_system")
+    hits = []
+    for n in ast.walk(fn):
+        if isinstance(n, ast.If) and isinstance(n.test, ast.Compare) and _src(n.test.left) == "(sys_major, sys_minor)":
+            hits.append(n)
+    if len(hits) != 1:
+        raise TranslateError("manylinux_tag_is_compatible_with_this_system: glibc comparison not found")
+    n = hits[0]
+    if (len(n.test.ops) != 1 or _src(n.test.comparators[0]) != "(tag_major, tag_minor)"
+            or [_src(x) for x in n.body] != ["return False"] or n.orelse):
+        raise TranslateError("manylinux_tag_is_compatible_with_this_system: glibc test shape changed: " + _src(n.test))
+    if isinstance(n.test.ops[0], ast.Lt):
+        return True
+    if isinstance(n.test.ops[0], ast.LtE):
+        return False
+    raise TranslateError("manylinux_tag_is_compatible_with_this_system: glibc comparison operator is not < or <=")
+
+
 PRE_TEST = "not has_equality and (not allow_prereleases) and candidate.version.is_prerelease"
 FLAG = "has_equality or allow_prereleases"
 
@@ -307,6 +328,7 @@ def gen_c03_consts() -> str:
     ops, no_wild = pin_ops()
     sd = sdist_extra_default()
     py_tag_parse()
+    strict = glibc_cmp_strict()
     b = T.HEADER
     b += "(* C03: read from req_compile/repos/repository.py and req_compile/utils.py *)\n"
     b += "Inductive field := FVersion | FExtra | FType | FTag | FFile.\n"
@@ -324,4 +346,6 @@ def gen_c03_consts() -> str:
     b += "Definition sdist_extra_default : string := " + T.coq_str(sd) + ".\n"
     b += "(* _impl_major_minor / _is_py_version_compatible matched: major = one digit, minor = all remaining digits,\n   compatible iff impl in (py, running) and major equal and minor <= running minor *)\n"
     b += "Definition py_minor_reads_all_digits : bool := true.\n"
+    b += "(* manylinux_tag_is_compatible_with_this_system rejects only tags NEWER than the host glibc *)\n"
+    b += "Definition glibc_rejects_only_newer : bool := " + ("true" if strict else "false") + ".\n"
     return b
